@@ -8,7 +8,7 @@ REQUIRES = ['Buffer.Model', 'Buffer.Spec']
 RULE = ('histories of mutations (append n in {1,2,cap,cap+2}; invalidate at {lb-1, lb, mid, ub-1, ub, ub+1, 0}; resize to '
         '{cap-1, cap+1, 2cap+1}) exhaustive up to length 3 (quick: cap 2,3; thorough: length 4, cap 1..4) followed by a boundary-centred read sweep '
         '(plain, filled incl. entirely-outside requests, latest, None bounds); then seeded random histories up to length 40 (cap up to 12); '
-        '1 and 2 channels; fs in {1, 1000, 195312.5}. Non-trivial: history contains an invalidate or resize, or an append larger '
+        '1 and 2 channels; fs in {1, 1000, 195312.5}; buffer and read fill values incl. 0; float and integer-typed chunks; the caller overwrites every array after appending it. Non-trivial: history contains an invalidate or resize, or an append larger '
         'than the capacity. Distinct = distinct (cap, fs, channels, op list).')
 TRUSTED = ['harness/C14.py (history generator; conversion of sample positions to seconds k/fs and back with the same float '
            'expression the code uses; canonicalisation of ndarray rows to integer lists)',
@@ -24,7 +24,7 @@ def _mk(case):
     fs = case['fs']
     size = case['cap'] / fs
     ch = case['ch']
-    b = SignalBuffer(fs, size, fill_value=float(FILL), n_channels=(None if ch == 1 else ch))
+    b = SignalBuffer(fs, size, fill_value=float(case.get('bfill', FILL)), n_channels=(None if ch == 1 else ch))
     return b
 
 
@@ -75,10 +75,14 @@ def impl(case):
         if k == 'A':
             n = o[1]
             base = np.arange(pos + 1, pos + n + 1, dtype=float)
+            vals = [int(v) for v in base]
             pos += n
-            data = base if ch == 1 else np.stack([base + 100000 * r for r in range(ch)])
+            data = base.copy() if ch == 1 else np.stack([base + 100000 * r for r in range(ch)])
+            if case.get('intdata') and (len(eff) % 2 == 0):
+                data = data.astype(np.int64)        # integer-typed chunks are legal input
             b.append_data(data)
-            eff.append(['A', [int(v) for v in base]])
+            data[...] = -555                        # the caller reuses its array: the buffer must have copied it
+            eff.append(['A', vals])
             emit(lambda r: ['N'])
         elif k == 'I':
             if o[2] == 's':
@@ -167,9 +171,9 @@ def term(case, res):
     ops = listlit([_op(o) for o in res['eff']])
     ts = []
     for r in range(case['ch']):
-        ts.append(f"check_run {zlit(res['cap'])} {zlit(FILL)} {ops} {listlit([_out(v) for v in res['outs'][r]])}")
+        ts.append(f"check_run {zlit(res['cap'])} {zlit(case.get('bfill', FILL))} {ops} {listlit([_out(v) for v in res['outs'][r]])}")
     # also evaluate the refinement statement of Props/C14.v on this very history (a test of the theorem, not its proof)
-    ts.append(f"check_spec {zlit(res['cap'])} {zlit(FILL)} {ops}")
+    ts.append(f"check_spec {zlit(res['cap'])} {zlit(case.get('bfill', FILL))} {ops}")
     return ' && '.join(f'({t})' for t in ts)
 
 
@@ -261,7 +265,10 @@ def _read_sweep(sp, rng, full=False):
         a = rng.randint(lo, max(lo, n))
         ops.append(['S', a, a])
         ops.append(['S', a + 1, a - 1] if rng.random() < 0.3 else ['S', a, min(n, a + 1)])
-    return [o for o in ops if o[0] != 'S' or True]
+    if rng.random() < 0.5:
+        # a fill value of 0 is as legal as any other
+        ops = [([o[0], o[1], o[2], 0] if (o[0] in 'FL' and o[3] == 7) else o) for o in ops]
+    return ops
 
 
 def _mut_alphabet(sp):
@@ -299,7 +306,7 @@ def cases(tier, rng):
     quick = tier == 'quick'
     for cap in ([2, 3] if quick else [1, 2, 3, 4]):
         for hist in _exhaustive(cap, 3 if quick else 4, rng, full=False):
-            yield {'cap': cap, 'fs': 1.0, 'ch': 1, 'ops': hist}
+            yield {'cap': cap, 'fs': 1.0, 'ch': 1, 'ops': hist, 'bfill': rng.choice([FILL, 0]), 'intdata': rng.random() < 0.3}
     fss = [1.0, 1000.0, 195312.5]
     for _ in range(400 if quick else 6000):
         cap = rng.randint(1, 12)
@@ -318,7 +325,8 @@ def cases(tier, rng):
             ops.append(o)
             sp.apply(o)
         ops += _read_sweep(sp, rng, full=(sp.n - sp.lo) <= 5)
-        yield {'cap': cap, 'fs': rng.choice(fss), 'ch': rng.choice([1, 1, 2]), 'ops': ops}
+        yield {'cap': cap, 'fs': rng.choice(fss), 'ch': rng.choice([1, 1, 2]), 'ops': ops,
+               'bfill': rng.choice([FILL, 0]), 'intdata': rng.random() < 0.3}
 
 
 def key(case, res):
